@@ -11,6 +11,8 @@ static void *verif_calloc(size_t n, size_t s) { if (fail_next_calloc) { fail_nex
 #include "src/util/list.c"
 #undef calloc
 
+/* the driver is linked with the non-thread-safe objects (no tsrm.o): the one reference the thread-count data source keeps */
+int snoopy_tsrm_get_threadCount(void) { return 1; }
 void snoopy_init(void); void snoopy_cleanup(void);
 void snoopy_configuration_preinit_disableConfigFileParsing(void);
 
@@ -60,4 +62,4 @@ static void handle(int nf, char **f, FILE *out) {
     snoopy_cleanup();
 }
 
-int main(void) { return run_cases(stdin, handle, 20); }
+int main(void) { return run_cases(stdin, handle, 10); }
